@@ -141,6 +141,8 @@ def invalid_schema(d, k, kind):
             first = next(cls(cls.META_SCHEMA).iter_errors(schema), None)
         except Exception as e:
             raise HarnessEscape(type(e).__name__)
+        if first is None:
+            return True, "accepted"           # an accepted schema: the instance is (rightly) examined; nothing to compare here
         try:
             jsonschema.validate(Poison(), schema, cls=cls)
             got = None
